@@ -11,7 +11,7 @@ use serde::{Deserialize, Serialize};
 pub fn def() -> PropDef {
     PropDef {
         id: "C12",
-        rule: "generated: codec family x engine x configuration x received-set spec x index probes {0, count-1, count, count+1, 2^32, usize::MAX-1, usize::MAX, random} x 1..20 consecutive rounds on one encoder and one decoder without explicit reset (new data and a new received set each round). oracle: recovery(i) is Some of the configured length iff i < recovery_count, the iterator yields exactly recovery(0..r) in order and then None on 5 further calls; restored_original(i) is Some iff i < original_count and not given (never when all were given), the iterator yields exactly those pairs ascending, then None 5 times; restored bytes equal the encoded originals; every round after a dropped result accepts all adds and is right again. part iter_protocol: generated sequences of std Iterator operations (next, nth, skip, step_by, take, count, last, fold, size_hint) on both result iterators must agree with a model iterator over exactly the expected items; and each of 22 consuming methods (for_each, count, last, fold, collect, extend, max, min, partition, all, position, reduce, and by-value adaptors map / enumerate / skip / step_by / take / chain / fuse / peekable / filter / zip) called DIRECTLY on a new iterator of the same result after a prefix of those operations (a method the iterator type overrides itself only runs when it is not reached through by_ref()); and two iterators of the same result advanced alternately with index accessors called in between. non-trivial: sparse received set with k >= 16, or a probe >= 2^32, or >= 3 rounds; distinct by full case",
+        rule: "generated: codec family x engine x configuration x received-set spec x index probes {0, count-1, count, count+1, 2^32, usize::MAX-1, usize::MAX, random} x 1..20 consecutive rounds on one encoder and one decoder without explicit reset (new data and a new received set each round). oracle: recovery(i) is Some of the configured length iff i < recovery_count, the iterator yields exactly recovery(0..r) in order and then None on 5 further calls; restored_original(i) is Some iff i < original_count and not given (never when all were given), the iterator yields exactly those pairs ascending, then None 5 times; restored bytes equal the encoded originals; every round after a dropped result accepts all adds and is right again. part iter_protocol: generated sequences of std Iterator operations (next, nth, skip, step_by, take, count, last, fold, size_hint) on both result iterators must agree with a model iterator over exactly the expected items; and each of 22 consuming methods (for_each, count, last, fold, collect, extend, max, min, partition, all, position, reduce, and by-value adaptors map / enumerate / skip / step_by / take / chain / fuse / peekable / filter / zip) called DIRECTLY on a new iterator of the same result after a prefix of those operations (a method the iterator type overrides itself only runs when it is not reached through by_ref()); and two iterators of the same result advanced alternately with index accessors called in between; if the iterator types implement DoubleEndedIterator (they do not in the unchanged crate), next() mixed with next_back() must yield every expected item exactly once. non-trivial: sparse received set with k >= 16, or a probe >= 2^32, or >= 3 rounds; distinct by full case",
         assumptions: &[],
         parts,
     }
@@ -149,6 +149,62 @@ fn drive_ops<T: PartialEq + std::fmt::Debug + Clone, I: Iterator<Item = T>, M: I
     Ok(())
 }
 
+// Double-ended use, if (and only if) the concrete iterator type implements DoubleEndedIterator: the unchanged crate
+// does not, a refactor may add it - and then `rev()` / `next_back()` mixed with `next()` must yield each expected item
+// exactly once. Resolved by autoref specialisation at the (non-generic) call site, so the harness compiles either way.
+pub struct BackProbe<'x, I>(pub &'x mut I);
+pub trait BackYes<T> {
+    fn try_next_back(&mut self) -> Option<Option<T>>;
+}
+impl<I: DoubleEndedIterator> BackYes<I::Item> for BackProbe<'_, I> {
+    fn try_next_back(&mut self) -> Option<Option<I::Item>> {
+        Some(self.0.next_back())
+    }
+}
+pub trait BackNo<T> {
+    fn try_next_back(&mut self) -> Option<Option<T>>;
+}
+impl<I: Iterator> BackNo<I::Item> for &mut BackProbe<'_, I> {
+    fn try_next_back(&mut self) -> Option<Option<I::Item>> {
+        None
+    }
+}
+
+/// mixes next() and next_back() (pattern from the seed) on a concrete iterator expression and compares with the model
+macro_rules! back_and_forth {
+    ($what:expr, $it:expr, $model:expr, $seed:expr) => {{
+        let mut it = $it;
+        let mut model: std::collections::VecDeque<_> = $model.collect();
+        let mut res: CheckResult = Ok(());
+        let mut supported = false;
+        for step in 0..model.len() + 3 {
+            let from_back = ($seed >> (step % 64)) & 1 == 1;
+            if from_back {
+                #[allow(unused_imports)]
+                use crate::props::c12::{BackNo, BackYes};
+                match (&mut BackProbe(&mut it)).try_next_back() {
+                    None => break, // not a DoubleEndedIterator
+                    Some(got) => {
+                        supported = true;
+                        let want = model.pop_back();
+                        if got != want {
+                            res = Err(crate::runner::Fail { sig: None, msg: format!("{}: next_back() at step {step} (mixed with next()) gives {got:?}, expected {want:?}", $what) });
+                            break;
+                        }
+                    }
+                }
+            } else {
+                let (got, want) = (it.next(), model.pop_front());
+                if got != want {
+                    res = Err(crate::runner::Fail { sig: None, msg: format!("{}: next() at step {step} (mixed with next_back()) gives {got:?}, expected {want:?}", $what) });
+                    break;
+                }
+            }
+        }
+        (res, supported)
+    }};
+}
+
 pub const TERMINALS: usize = 22;
 
 /// a CONSUMING std method called directly on the (possibly partly consumed) iterator - not through `by_ref()`,
@@ -280,6 +336,7 @@ fn drive_terminal<T: Ord + Clone + std::fmt::Debug, I: Iterator<Item = T>, M: It
 }
 
 fn check_iter(c: &IterCase, st: &mut Stats) -> CheckResult {
+    let mut back_supported = false;
     let Cfg { k, r, b } = c.cfg;
     let data = DataSpec { mode: 0, seed: c.seed }.expand(k, b);
     let expected_rec = encode_all(c.kind, c.eng, k, r, b, &data).map_err(|e| format!("encode failed: {e:?}"))?;
@@ -300,6 +357,11 @@ fn check_iter(c: &IterCase, st: &mut Stats) -> CheckResult {
                 }
                 let cut = ((c.seed >> (t % 16)) as usize ^ t) % (c.ops.len() + 1);
                 verdict = drive_terminal("recovery_iter", &c.ops[..cut], t, res.recovery_iter(), expected_rec.iter().map(|v| v.as_slice()));
+            }
+            if verdict.is_ok() {
+                let (r2, sup) = back_and_forth!("recovery_iter", res.recovery_iter(), expected_rec.iter().map(|v| v.as_slice()), c.seed | 2);
+                verdict = r2;
+                back_supported |= sup;
             }
             // two iterators of the same result advanced alternately, with index probes in between: each keeps its own position
             if verdict.is_ok() {
@@ -351,6 +413,11 @@ fn check_iter(c: &IterCase, st: &mut Stats) -> CheckResult {
                 verdict = drive_terminal("restored_original_iter", &c.ops[..cut], t, res.restored_original_iter(), expected_res.iter().cloned());
             }
             if verdict.is_ok() {
+                let (r2, sup) = back_and_forth!("restored_original_iter", res.restored_original_iter(), expected_res.iter().cloned(), c.seed | 2);
+                verdict = r2;
+                back_supported |= sup;
+            }
+            if verdict.is_ok() {
                 verdict = (|| {
                     let (mut a, mut b) = (res.restored_original_iter(), res.restored_original_iter());
                     let (mut ma, mut mb) = (expected_res.iter().cloned(), expected_res.iter().cloned());
@@ -374,6 +441,7 @@ fn check_iter(c: &IterCase, st: &mut Stats) -> CheckResult {
     .map_err(|e| format!("decode failed: {e:?}"))?;
     verdict?;
     st.classf("kind", c.kind.name());
+    st.classf("iterators_are_double_ended", back_supported);
     st.classf("ops", c.ops.len().min(12));
     if c.ops.iter().any(|o| !matches!(o, IterOp::Next)) && c.ops.len() >= 2 {
         st.nontrivial_case("iter_protocol", c);
